@@ -92,10 +92,10 @@ def run(ctx):
                        'system level: generated programs are valid PTG (each consumed version has one producer)']
     rng = random.Random(ctx.seed * 7919 + 7)
     shapes = list(QUICK_SHAPES)
-    batches = 220
+    batches = 170
     if thorough:
-        shapes += random_shapes(rng, 96)
-        batches = 900
+        shapes += random_shapes(rng, 60)
+        batches = 700
     jobs = []
     for i, sh in enumerate(shapes):
         flavour = 'asan' if i % 2 == 0 else 'rel'
@@ -338,7 +338,7 @@ def sys_run(ctx):
     rng = random.Random(ctx.seed * 31 + 5)
     jobs = []
     n = 0
-    reps = 6 if thorough else 1
+    reps = 4 if thorough else 1
     for i, v in enumerate(SYS_VARIANTS):
         flavour = 'asan' if i % 2 == 0 else 'rel'
         exe, mode = sys_build(ctx, flavour, v)
